@@ -65,6 +65,8 @@ type Job struct {
 	Extra      json.RawMessage `json:"extra,omitempty"`
 	NoMinimise bool            `json:"no_minimise,omitempty"`
 	Known      []Violation     `json:"known,omitempty"`
+	SubMod     int             `json:"sub_mod,omitempty"`
+	SubRem     int             `json:"sub_rem,omitempty"`
 }
 
 // Batch is one block of runs of a check.
@@ -672,13 +674,23 @@ func doCheck(id, tier string) int {
 		if strings.Contains(b.Name, "crash") || b.Name == "c10.sweep" || b.Name == "c13.global" {
 			per = 1 // one base execution (with all its fault points) per unit of work
 		}
+		shards := 1
+		if strings.Contains(b.Name, "crash") {
+			shards = 4 // the fault points of one base execution are spread over four workers
+		}
 		for c := uint64(0); c*per < count; c++ {
 			from, to := c*per, (c+1)*per
 			if to > count {
 				to = count
 			}
-			units = append(units, unit{Job{Property: id, Batch: b.Name, Mode: "explore", Seed: seed + uint64(bi)*1000003, From: from, To: to,
-				Out: filepath.Join(work, fmt.Sprintf("out-%d-%d.jsonl", bi, c)), ReplayDir: replayTmp, MaxViol: 2, Extra: extra}})
+			for sh := 0; sh < shards; sh++ {
+				j := Job{Property: id, Batch: b.Name, Mode: "explore", Seed: seed + uint64(bi)*1000003, From: from, To: to,
+					Out: filepath.Join(work, fmt.Sprintf("out-%d-%d-%d.jsonl", bi, c, sh)), ReplayDir: replayTmp, MaxViol: 2, Extra: extra}
+				if shards > 1 {
+					j.SubMod, j.SubRem = shards, sh
+				}
+				units = append(units, unit{j})
+			}
 		}
 	}
 	var knownV []Violation
